@@ -400,7 +400,7 @@ def resolve_name(obj, func, args, unknown=False):
             attr_owner = resolve_name(obj.value, func, args)
             try:
                 return getattr(attr_owner, obj.attr)
-            except AttributeError:
+            except Exception: # properties may raise anything
                 raise UnresolvableName(obj)
         else:
             raise UnresolvableName(obj)
